@@ -27,6 +27,17 @@ def make_case(rng, i, tier):
                    sigs=[(8, 8), (4, 4), (3, 4), (6, 8), (2, 4), (5, 4), (2, 2), (7, 8), (12, 8), (5, 8), (7, 4), (9, 8), (3, 2), (1, 4), (11, 8),
                          (4, 2), (3, 16), (15, 16), (1, 2), (1, 1)],
                    ongrid=(lambda x: x % 4 == 0 or x % 6 == 0) if (q and rng.random() < 0.5) else None)
+    if i % 3 == 2:
+        # control / program changes ride along (bar counts and coverage must not depend on them): on the final tick of a track
+        # (often a bar line), on bar lines, anywhere
+        import random
+        r6 = random.Random(f"c09-controls:{i}")
+        for t in pc["tracks"]:
+            tend = gen.end_of(t)
+            ch = t["notes"][0][0] if t["notes"] else 0
+            for _ in range(r6.randint(1, 3)):
+                tick = r6.choice([tend, tend, r6.randrange(0, tend + 1)] + [b[0] for b in pc["bars"] if b[0] <= tend])
+                t.setdefault("extra", []).append(r6.choice([["cc", tick, ch, 64, r6.randrange(0, 127)], ["pc", tick, ch, r6.randrange(0, 127)]]))
     # make sure the meta track reaches far enough often (signatures beyond its end are still on its list)
     safe = ("touch_defaults", "normalise", "copy", "read_abs", "read_rel", "iter_rel_velocity_edit", "iter_abs_velocity_edit", "transpose", "merge_empty", "qnl")   # (set_channel would merge
     # the channels of a two-channel track and can make it ill-formed, which is outside what C08/C09 speak about)
